@@ -122,3 +122,20 @@ def concrete_instances(fx, cf):
             return inst
     inst = [caps for caps in closure_instances(fx, cf["def"]) if not any(c in gen for c in caps)]
     return inst or [list(cf.get("upvars", []))]
+
+
+def instance_bodies(ctx, fx, cf):
+    """[(capture types, Body)] — one view of a submit / receive closure per instantiation: a closure written in a generic
+    helper (`assemble<T: RawTx<A>, R>`) is looked at with its type parameters replaced by what each constructor passes, the
+    trait methods it calls on them resolved to the implementation for that type, and crate-private helpers inlined"""
+    import inline
+    gen = list((fx.fn(cf.get("root", cf["def"])) or {}).get("generics") or [])
+    ups = list(cf.get("upvars", []))
+    out = []
+    for caps in concrete_instances(fx, cf):
+        sub = {}
+        for u, c in zip(ups, caps):
+            if u in gen and u != c:
+                sub[u] = c
+        out.append((caps, inline.body(ctx, fx, cf, inline.not_public, sub=sub or None) if (sub or not cf.get("_adt")) else ctx.body(fx, cf)))
+    return out
